@@ -369,7 +369,12 @@ class Pool(localbase):
     def disconnect(pool):
         con = pool.con
         pool.con = None
-        if con is not None: con.close()
+        if con is None: pass
+        elif pool.pid is not None and pool.pid != os.getpid():
+            # the connection was inherited from the parent process through fork(): it is not ours to close
+            pool.forked_connections.append((con, pool.pid))
+            pool.pid = None
+        else: con.close()
 
 class Converter(object):
     EQ = 'EQ'
